@@ -766,3 +766,91 @@ Proof.
     + intros q a t Hq _ H. eapply substring_closed; eassumption.
     + intros _ q a _ _. unfold substring_f. destruct (negb ms && _); discriminate.
 Qed.
+
+(* ---------- nth_from_end: shift register ---------- *)
+Definition bit (s a : nat) : nat := if Nat.eqb a s then 1 else 0.
+(* value of a word read as bits, head = least significant *)
+Fixpoint bits (s : nat) (r : word) : nat :=
+  match r with [] => 0 | a :: r' => bit s a + 2 * bits s r' end.
+
+Lemma bit_lt2 s a : bit s a < 2.
+Proof. unfold bit. destruct (Nat.eqb a s); lia. Qed.
+
+Lemma pow2_pos n : 0 < Nat.pow 2 n.
+Proof. induction n as [|n IH]; simpl; lia. Qed.
+
+Lemma shift_mod b v M : b < 2 -> 0 < M -> (b + 2 * v) mod (2 * M) = b + 2 * (v mod M).
+Proof.
+  intros Hb HM. symmetry. apply (Nat.mod_unique _ _ (v / M)).
+  - pose proof (Nat.mod_upper_bound v M ltac:(lia)). lia.
+  - pose proof (Nat.div_mod v M ltac:(lia)) as E. rewrite E at 1. lia.
+Qed.
+
+Lemma shift_step_mod b v N : 0 < N -> (2 * (v mod N) + b) mod N = (b + 2 * v) mod N.
+Proof.
+  intro HN. rewrite <- Nat.add_mod_idemp_l by lia. rewrite Nat.mul_mod_idemp_r by lia.
+  rewrite Nat.add_mod_idemp_l by lia. f_equal. lia.
+Qed.
+
+Lemma shift_arun s n w : arun (nth_end_f s n) (Some 0) w = Some (bits s (rev w) mod Nat.pow 2 n).
+Proof.
+  pose proof (pow2_pos n) as HN.
+  induction w as [|a w IH] using rev_ind.
+  - simpl. rewrite Nat.mod_0_l by lia. reflexivity.
+  - rewrite arun_app, IH. cbn [arun fold_left astep]. unfold nth_end_f. rewrite rev_unit. cbn [bits].
+    fold (bit s a). f_equal. apply shift_step_mod. exact HN.
+Qed.
+
+Lemma topbit s m : forall r, Nat.leb (Nat.pow 2 m) (bits s r mod Nat.pow 2 (S m)) = nth_startb s (S m) r.
+Proof.
+  induction m as [|m IH]; intro r.
+  - destruct r as [|a r]; [reflexivity|]. cbn [bits nth_startb nth_error].
+    change (Nat.pow 2 1) with (2 * 1). rewrite shift_mod by (try apply bit_lt2; lia).
+    rewrite Nat.mod_1_r. unfold bit. destruct (Nat.eqb a s); reflexivity.
+  - destruct r as [|a r].
+    + cbn [bits nth_startb nth_error]. rewrite Nat.mod_0_l by (pose proof (pow2_pos (S (S m))); lia).
+      apply Nat.leb_gt. apply pow2_pos.
+    + cbn [bits]. change (nth_startb s (S (S m)) (a :: r)) with (nth_startb s (S m) r).
+      rewrite <- IH.
+      replace (Nat.pow 2 (S (S m))) with (2 * Nat.pow 2 (S m)) by reflexivity.
+      rewrite shift_mod by (try apply bit_lt2; apply pow2_pos).
+      replace (Nat.pow 2 (S m)) with (2 * Nat.pow 2 m) at 1 by reflexivity.
+      pose proof (bit_lt2 s a) as Hb.
+      apply eq_true_iff_eq. rewrite !Nat.leb_le. lia.
+Qed.
+
+Lemma half_pow2 m : Nat.div (Nat.pow 2 (S m)) 2 = Nat.pow 2 m.
+Proof. replace (Nat.pow 2 (S m)) with (Nat.pow 2 m * 2) by (simpl; lia). apply Nat.div_mul. lia. Qed.
+
+Lemma nth_end_closed s n q a t : nth_end_f s n q a = Some t -> t < Nat.pow 2 n.
+Proof.
+  unfold nth_end_f. intro H. inversion H; subst. apply Nat.mod_upper_bound.
+  pose proof (pow2_pos n). lia.
+Qed.
+
+Theorem nth_from_end_acc syms s n m w : nth_from_end_m syms s n = Ok m ->
+  dfa_acc m w = overb syms w && nth_endb s n w.
+Proof.
+  intro H. apply nth_guard_cases in H. destruct H as [Hn [Hs [[Hl ->]|[Hl ->]]]].
+  - rewrite of_length_acc. simpl counted_set. rewrite (single_alphabet syms s Hl Hs).
+    destruct (overb [s] w) eqn:Ho; [|reflexivity]. simpl.
+    unfold rangeb. rewrite andb_true_r, over1_counted by exact Ho.
+    unfold nth_endb. rewrite over1_nth_startb; [|rewrite overb_rev; exact Ho|exact Hn].
+    rewrite rev_length. reflexivity.
+  - destruct n as [|k]; [lia|]. rewrite table_acc.
+    + f_equal. rewrite shift_arun. cbn [afin]. rewrite half_pow2. unfold nth_endb. apply topbit.
+    + apply pow2_pos.
+    + intros q a t _ _ H. eapply nth_end_closed. exact H.
+Qed.
+
+Theorem nth_from_end_valid syms s n m : NoDup syms -> nth_from_end_m syms s n = Ok m ->
+  valid_dfa m = true.
+Proof.
+  intros Hnd H. apply nth_guard_cases in H. destruct H as [Hn [Hs [[Hl ->]|[Hl ->]]]].
+  - apply of_length_valid. exact Hnd.
+  - apply table_valid.
+    + exact Hnd.
+    + apply pow2_pos.
+    + intros q a t _ _ H. eapply nth_end_closed. exact H.
+    + intros _ q a _ _. unfold nth_end_f. discriminate.
+Qed.
